@@ -22,7 +22,7 @@ PROP = dict(
                 "for arbitrary separators; with atomic increments every interleaving of N goroutines ends at the total number of increments "
                 "(premise: regenerated fact that Counter.Inc/Add/Value are single sync/atomic operations), and a non-atomic read-modify-write loses one. "
                 "The model is tied to the code by the regenerated facts and by correspondence of every op's output on generated scripts "
-                "(names/tags with ':' and '=', 0-5 tags, >=100 repeated lookups with freshly built maps)."),
+                "(names/tags with ':' and '=', 0-5 tags, >=100 repeated lookups with freshly built maps; database.MonitoredDatabase searches/loads versus the monitor model)."),
     level_note=("Trusted: Lean kernel; axioms propext/Classical.choice/Quot.sound only; the translator's recognisers in xlate/x_metrics.go (metricKey shape, "
                 "getOrCreate shape, Counter atomics, Observe lock, bucket literal); the harness and its hook file (read-only accessors). Not proved: float64 "
                 "arithmetic (the percentile theorem is over the rationals; the real floats are compared op by op with the Float-instantiated model and "
@@ -35,7 +35,7 @@ PROP = dict(
     rule=("random scripts of 8-40 (thorough: 8-120) ops over 1-6 identities drawn from names/tag names/values containing ':' '=' empty and non-UTF-8 bytes, "
           "0-5 tags listed in random insertion order, incl. planted colliding tag sets; counter inc/add/reset/value, 100-130 repeated lookups with freshly "
           "built maps, key hook, histogram observe/percentile/grid on default and custom (sorted, unsorted, empty) buckets, monitor record calls with "
-          "enable/disable, totals and dumps. A case is non-trivial if it looks up an identity with >= 2 tags (map order can matter) or checks monitor totals "
+          "enable/disable, totals and dumps, and (one case in three) searches/loads through database.MonitoredDatabase. A case is non-trivial if it looks up an identity with >= 2 tags (map order can matter) or checks monitor totals "
           "after at least one two-tag database record; distinct = distinct op sequences. Each c18race run counts as one evaluation."),
     assumptions=["counter arithmetic is int64: 'value = number of increments' is claimed while that number fits (wrap-around is modelled and exercised)",
                  "percentile monotonicity: buckets sorted and non-empty, 0 <= p <= p' <= 100; outside that domain behaviour is run, compared with the model and tagged only",
@@ -55,7 +55,8 @@ ASSERTIONS = ["metrics:metricKey", "metrics:metricKey-params", "metrics:metricKe
               "metrics:metricKey-loop-source", "metrics:metricKey-separators-ascii", "metrics:getOrCreate", "metrics:getOrCreate-shape",
               "metrics:Collector.Counter", "metrics:Collector.Gauge", "metrics:Collector.Histogram", "metrics:Collector.Timer",
               "metrics:NewHistogram", "metrics:NewHistogram-buckets", "metrics:NewHistogramWithBuckets", "metrics:Histogram-overflow-cell",
-              "metrics:RecordSearchOperation", "metrics:RecordDatabaseOperation"]
+              "metrics:RecordSearchOperation", "metrics:RecordDatabaseOperation", "metrics:MonitoredDatabase.SearchWithMonitoring",
+              "metrics:MonitoredDatabase.SearchWithOptionsAndMonitoring", "metrics:MonitoredDatabase.LoadDatabaseWithMonitoring"]
 
 
 def nontrivial(tags, ops, impl):
@@ -64,7 +65,7 @@ def nontrivial(tags, ops, impl):
 
 def _race_args(ctx, i):
     if ctx.tier == "quick":
-        g, n = 16, 3000
+        g, n = (16, 8000) if i % 2 == 0 else (48, 2000)
     else:
         g, n = (32, 30000) if i % 2 == 0 else (8, 100000)
     return ["-seed", str(ctx.seed + 101 * i), "-g", str(g), "-n", str(n)]
@@ -93,7 +94,7 @@ def stage_race(ctx):
     ctx.oblige("build:harness(-race)", "build", ok, out)
     if not ok:
         return
-    runs = 2 if ctx.tier == "quick" else 6
+    runs = 3 if ctx.tier == "quick" else 6
     all_ok, details = True, []
     for i in range(runs):
         args = _race_args(ctx, i)
@@ -117,6 +118,7 @@ def stage_race(ctx):
             what = "%s: c18race %s rc=%s %s" % (cls, " ".join(args), rc, json.dumps((rep or {}).get("failures", []))[:300])
             ctx.hit(cls, what, dict(kind="impl-counterexample", tool="c18race", args=args, exit_status=rc, data_race_reported=race,
                                     report=rep, stderr_head=err[:4000], **{"class": cls}))
+            break  # one failing run is the counterexample; further runs only add (slow) race reports
     ctx.oblige("concurrent:c18race(-race): totals = calls, one series per identity, race detector silent", "dynamic", all_ok,
                json.dumps(details)[:3500])
 
@@ -126,7 +128,7 @@ def run(ctx):
     ctx.stage_prove(THEOREMS)
     if not ctx.stage_build():
         return
-    n = 400 if ctx.tier == "quick" else 12000
+    n = 1500 if ctx.tier == "quick" else 25000
     ctx.correspond("metrics", n, nontrivial=nontrivial)
     stage_race(ctx)
 
